@@ -353,7 +353,8 @@ CLAIMED = {
             "theorems hold for the tables extracted with the relic_conf.h of the 255-bit and 381-bit configurations (extra_* theorems: "
             "2^255-19 with Curve25519 in Weierstrass form, the Tweedledum pair, BLS12-381 with p = (x-1)^2 (x^4-x^2+1)/3 + x, r = x^4-x^2+1, "
             "cofactor (x-1)^2/3, embedding degree 12 and its twist), with their own identifier sweeps against libraries built in those "
-            "configurations; and for every integer x the BN and BLS12 family polynomials satisfy r(x) | Phi_12(p(x)) (resp. 81 Phi_12). "
+            "configurations; the twisted Edwards table of ed_param_set (Ed25519) is extracted and certified the same way (edwards_* theorems) and "
+            "compared with the ed_param lines of the C17 streams; and for every integer x the BN and BLS12 family polynomials satisfy r(x) | Phi_12(p(x)) (resp. 81 Phi_12). "
             "PARTIAL: binary curves are checked per line in C16, Frobenius constants through C10/C11, the parameter sets of the further "
             "pairing field sizes (thorough sweeps of C10) are not certified.",
             "Trusted: Lean kernel (decide +kernel on literals); tools/translate_params.py (regex extraction after gcc -E; unknown "
